@@ -490,7 +490,7 @@ theorem execPairs_pop_cons (n : Nat) (r : Int) (p : Int) (rest : List Pair) (sm 
   rw [execPairs]; simp [hst]
 
 /-- Running a prefix of mode actions: all of them are applied, in order; a pop on the empty stack
-stops with `_lexerError` and leaves the partially updated `(mode, stack)`. -/
+stops with `_lexerError` and leaves the `(mode, stack)` reached up to there. -/
 theorem execPairs_modeActs (n : Nat) (r : Int) (pre tail : List Pair) (sm : SM) (mo : Nat)
     (hpre : ∀ p ∈ pre, (p.1 = 1 ∧ p.2.toNat < n) ∨ p.1 = 2) (hmo : sm.mode = some mo) :
     execPairs n r (pre ++ tail) sm =
@@ -725,11 +725,6 @@ theorem readToken_oob (h : pushRune modes l.sm (l.char inp) = (.oob, sm')) :
     readToken modes inp (n + 1) start l = some (none, { l with sm := sm' }) := by
   rw [readToken]; simp only [h]
 
-/-- The state of the driver after an ERROR token: skip to the next newline, step over it, `Reset()`. -/
-def afterError (inp : Input) (l : Lx) : Lx :=
-  let l2 := (skipLine inp (inp.size + 1) l).consume inp
-  { l2 with sm := l2.sm.reset }
-
 theorem readToken_error (h : pushRune modes l.sm (l.char inp) = (.error, sm')) :
     readToken modes inp (n + 1) start l
       = some (some (.err (start.getD l.offset) (l.char inp)),
@@ -943,5 +938,1264 @@ theorem lexAll_progress {modes : Array Mode} (hwf : WFModes modes) (inp : Input)
       cases ht with
       | inl h => subst h; simp
       | inr h => exact hts t h q
+
+/-! ## Written action lists (C07) -/
+
+theorem applyModeActsT_append_terminal (pre : List Pair) (t : Pair) (ms : MS)
+    (ht : t.1 = 3 ∨ t.1 = 4 ∨ t.1 = 5) :
+    applyModeActsT (pre ++ [t]) ms = applyModeActsT pre ms := by
+  induction pre generalizing ms with
+  | nil =>
+    obtain ⟨ty, p⟩ := t
+    obtain ⟨mode, stack⟩ := ms
+    simp only at ht
+    have h1 : ty ≠ 1 := by omega
+    have h2 : ty ≠ 2 := by omega
+    simp [applyModeActsT, h1, h2]
+  | cons a rest ih =>
+    obtain ⟨ty, p⟩ := a
+    obtain ⟨mode, stack⟩ := ms
+    simp only [List.cons_append]
+    unfold applyModeActsT
+    by_cases c1 : ty = 1
+    · simp only [c1, if_true]; exact ih _
+    · simp only [c1, if_false]
+      by_cases c2 : ty = 2
+      · simp only [c2, if_true]
+        cases stack with
+        | nil => rfl
+        | cons top st => simp only; exact ih _
+      · simp only [c2, if_false]; exact ih _
+
+theorem modePairs_cons_mode (w : WAction) (ws : List WAction) (h : w.isTerminal = false) :
+    modePairs (w :: ws) = w.pair :: modePairs ws := by
+  simp [modePairs, h]
+
+theorem modePairs_cons_terminal (w : WAction) (ws : List WAction) (h : w.isTerminal = true) :
+    modePairs (w :: ws) = modePairs ws := by
+  simp [modePairs, h]
+
+/-- The emitted mode pairs do to the abstract stack exactly what the written mode actions do, in
+written order. -/
+theorem applyModeActs_modePairs (ws : List WAction) (ms : MS) :
+    applyModeActs (modePairs ws) ms = applyW ws ms := by
+  induction ws generalizing ms with
+  | nil => rfl
+  | cons w rest ih =>
+    obtain ⟨mode, stack⟩ := ms
+    cases w with
+    | pushMode k =>
+      rw [modePairs_cons_mode _ _ rfl]
+      simp only [WAction.pair, applyModeActs, applyW, if_true, Int.toNat_natCast]
+      exact ih _
+    | popMode =>
+      rw [modePairs_cons_mode _ _ rfl]
+      simp only [WAction.pair, applyModeActs, applyW]
+      cases stack with
+      | nil => simp
+      | cons top st => simp; exact ih _
+    | emit t => rw [modePairs_cons_terminal _ _ rfl]; simp only [applyW]; exact ih _
+    | discard => rw [modePairs_cons_terminal _ _ rfl]; simp only [applyW]; exact ih _
+
+/-- The emitted mode pairs are push (to the written mode) / pop pairs. -/
+theorem modePairs_wf (n : Nat) (ws : List WAction) (hn : ∀ k, WAction.pushMode k ∈ ws → k < n) :
+    ∀ p ∈ modePairs ws, (p.1 = 1 ∧ p.2.toNat < n) ∨ p.1 = 2 := by
+  intro p hp
+  simp only [modePairs, List.mem_map, List.mem_filter] at hp
+  obtain ⟨w, ⟨hw, hnt⟩, rfl⟩ := hp
+  cases w with
+  | pushMode k => left; exact ⟨rfl, by simpa [WAction.pair] using hn k hw⟩
+  | popMode => right; rfl
+  | emit t => simp [WAction.isTerminal] at hnt
+  | discard => simp [WAction.isTerminal] at hnt
+
+theorem writtenTerminal_type (dflt : Pair) (ws : List WAction)
+    (hd : dflt.1 = 3 ∨ dflt.1 = 4 ∨ dflt.1 = 5) :
+    (writtenTerminal dflt ws).1 = 3 ∨ (writtenTerminal dflt ws).1 = 4 ∨
+      (writtenTerminal dflt ws).1 = 5 := by
+  unfold writtenTerminal
+  cases h : ws.find? WAction.isTerminal with
+  | none => exact hd
+  | some w =>
+    have := List.find?_some h
+    cases w with
+    | pushMode k => simp [WAction.isTerminal] at this
+    | popMode => simp [WAction.isTerminal] at this
+    | emit t => left; rfl
+    | discard => right; left; rfl
+
+theorem filter_terminal_length (ws : List WAction) :
+    (ws.filter WAction.isTerminal).length =
+      (ws.filter (· == .discard)).length + (ws.filter isEmit).length := by
+  induction ws with
+  | nil => rfl
+  | cons w rest ih =>
+    cases w <;> simp [List.filter_cons, WAction.isTerminal, isEmit, ih] <;> omega
+
+/-- `fragRulePairs` with the `@emit` test named. -/
+theorem fragRulePairs_def (ws : List WAction) :
+    fragRulePairs ws =
+      if (ws.filter (· == .discard)).length > 1 ∨ (ws.filter isEmit).length > 1 ∨
+          ((ws.filter (· == .discard)).length ≥ 1 ∧ (ws.filter isEmit).length ≥ 1) then none
+      else
+        some ((ws.filter (fun w => !w.isTerminal)).map WAction.pair ++
+          (if ((ws.filter WAction.isTerminal).map WAction.pair).isEmpty then [accumPair]
+           else (ws.filter WAction.isTerminal).map WAction.pair)) := by
+  have key : ∀ f : WAction → Bool, f = isEmit →
+      (let nd := (ws.filter (· == .discard)).length
+       let ne := (ws.filter f).length
+       if nd > 1 ∨ ne > 1 ∨ (nd ≥ 1 ∧ ne ≥ 1) then none
+       else
+        let modeActs := (ws.filter (fun w => !w.isTerminal)).map WAction.pair
+        let termActs := (ws.filter WAction.isTerminal).map WAction.pair
+        some (modeActs ++ (if termActs.isEmpty then [accumPair] else termActs))) =
+      if (ws.filter (· == .discard)).length > 1 ∨ (ws.filter isEmit).length > 1 ∨
+          ((ws.filter (· == .discard)).length ≥ 1 ∧ (ws.filter isEmit).length ≥ 1) then none
+      else
+        some ((ws.filter (fun w => !w.isTerminal)).map WAction.pair ++
+          (if ((ws.filter WAction.isTerminal).map WAction.pair).isEmpty then [accumPair]
+           else (ws.filter WAction.isTerminal).map WAction.pair)) := by
+    intro f hf; subst hf; rfl
+  unfold fragRulePairs
+  exact key _ (by funext w; cases w <;> rfl)
+
+/-- **What `FragRule.RunPass(GenerateGrammar)` stores**: the written mode actions in written order,
+then the one terminal pair – the written `@emit`/`@discard` wherever it was written, else
+accumulate. -/
+theorem fragRulePairs_eq {ws : List WAction} {ps : List Pair} (h : fragRulePairs ws = some ps) :
+    ps = modePairs ws ++ [writtenTerminal accumPair ws] := by
+  rw [fragRulePairs_def] at h
+  split at h
+  · cases h
+  · rename_i hc
+    simp only [Option.some.injEq] at h
+    subst h
+    have hlen := filter_terminal_length ws
+    have hle : (ws.filter WAction.isTerminal).length ≤ 1 := by omega
+    unfold modePairs writtenTerminal
+    congr 1
+    rw [← List.head?_filter]
+    match hf : ws.filter WAction.isTerminal with
+    | [] => simp
+    | [w] => simp
+    | _ :: _ :: _ => rw [hf] at hle; simp at hle
+
+/-- **What `TokenRule.RunPass(GenerateGrammar)` stores**: the written mode actions in written
+order, then accept of the rule's own terminal. -/
+theorem tokenRulePairs_eq {terminal : Nat} {ws : List WAction} {ps : List Pair}
+    (h : tokenRulePairs terminal ws = some ps) :
+    ps = modePairs ws ++ [writtenTerminal ((3 : Int), (terminal : Int)) ws] ∧
+      writtenTerminal ((3 : Int), (terminal : Int)) ws = (3, (terminal : Int)) := by
+  unfold tokenRulePairs at h
+  split at h
+  · cases h
+  · rename_i hc
+    simp only [Option.some.injEq] at h
+    subst h
+    have hall : ∀ w ∈ ws, w.isTerminal = false := by
+      simpa using hc
+    have hfind : ws.find? WAction.isTerminal = none := by
+      rw [List.find?_eq_none]; intro w hw; simp [hall w hw]
+    have hfilter : ws.filter (fun w => !w.isTerminal) = ws := by
+      rw [List.filter_eq_self]; intro w hw; simp [hall w hw]
+    simp [modePairs, writtenTerminal, hfind, hfilter]
+
+/-- Position independence: wherever the terminal action is written among the mode actions, the
+stored pairs are the same. -/
+theorem fragRulePairs_terminal_anywhere (ms1 ms2 : List WAction) (t : WAction)
+    (h1 : ∀ w ∈ ms1, w.isTerminal = false) (h2 : ∀ w ∈ ms2, w.isTerminal = false)
+    (ht : t.isTerminal = true) :
+    fragRulePairs (ms1 ++ t :: ms2) = some ((ms1 ++ ms2).map WAction.pair ++ [t.pair]) := by
+  have hf1 : ms1.filter WAction.isTerminal = [] := by
+    rw [List.filter_eq_nil_iff]; intro w hw; simp [h1 w hw]
+  have hf2 : ms2.filter WAction.isTerminal = [] := by
+    rw [List.filter_eq_nil_iff]; intro w hw; simp [h2 w hw]
+  have hn1 : ms1.filter (fun w => !w.isTerminal) = ms1 := by
+    rw [List.filter_eq_self]; intro w hw; simp [h1 w hw]
+  have hn2 : ms2.filter (fun w => !w.isTerminal) = ms2 := by
+    rw [List.filter_eq_self]; intro w hw; simp [h2 w hw]
+  have hfilter : (ms1 ++ t :: ms2).filter WAction.isTerminal = [t] := by
+    simp [List.filter_append, hf1, hf2, ht]
+  have hlen := filter_terminal_length (ms1 ++ t :: ms2)
+  rw [hfilter] at hlen
+  simp only [List.length_singleton] at hlen
+  rw [fragRulePairs_def, if_neg (by omega)]
+  simp [hfilter, List.filter_append, hn1, hn2, ht]
+
+/-- Executing the pairs stored for a written action list `ws` (default terminal `dflt`): every
+written mode action is applied, in written order, then the one terminal action takes effect; a
+written `@pop_mode` that finds the stack empty gives `_lexerError`. -/
+theorem execPairs_written (n : Nat) (r : Int) (ws : List WAction) (dflt : Pair) (sm : SM) (mo : Nat)
+    (hd : dflt.1 = 3 ∨ dflt.1 = 4 ∨ dflt.1 = 5) (hn : ∀ k, WAction.pushMode k ∈ ws → k < n)
+    (hmo : sm.mode = some mo) :
+    execPairs n r (modePairs ws ++ [writtenTerminal dflt ws]) sm =
+      match applyW ws (mo, sm.modeStack) with
+      | some ms =>
+        terminalEffect (writtenTerminal dflt ws) { sm with mode := some ms.1, modeStack := ms.2 }
+      | none =>
+        (.error, { sm with mode := some (applyModeActsT (modePairs ws) (mo, sm.modeStack)).1,
+                           modeStack := (applyModeActsT (modePairs ws) (mo, sm.modeStack)).2 }) := by
+  rw [execPairs_wf n r (modePairs ws) _ sm mo (modePairs_wf n ws hn)
+    (writtenTerminal_type dflt ws hd) hmo, applyModeActs_modePairs]
+
+/-! ## The ghost-instrumented driver -/
+
+section unfoldG
+variable (modes : Array Mode) (inp : Input) (n : Nat) (start : Option Nat) (l : Lx) (sm' : SM)
+  (g : List Ev)
+
+theorem readTokenG_consume (h : pushRune modes l.sm (l.char inp) = (.consume, sm')) :
+    readTokenG modes inp (n + 1) start l g
+      = readTokenG modes inp n (some (start.getD l.offset))
+          (({ l with sm := sm' } : Lx).consume inp) g := by
+  rw [readTokenG]; simp only [h]
+
+theorem readTokenG_accept (h : pushRune modes l.sm (l.char inp) = (.accept, sm')) :
+    readTokenG modes inp (n + 1) start l g
+      = some (some (.tok sm'.token (start.getD l.offset) l.offset), { l with sm := sm' },
+          g ++ [fireEv start l .accept] ++
+            [.seg ⟨.tok sm'.token, start.getD l.offset, l.offset⟩,
+             .ret (.tok sm'.token (start.getD l.offset) l.offset) (sm'.mode.getD 0) sm'.modeStack]) := by
+  rw [readTokenG]; simp only [h, fireEv]
+
+theorem readTokenG_discard (h : pushRune modes l.sm (l.char inp) = (.discard, sm')) :
+    readTokenG modes inp (n + 1) start l g
+      = readTokenG modes inp n none { l with sm := sm' }
+          (g ++ [fireEv start l .discard] ++ [.seg ⟨.discarded, start.getD l.offset, l.offset⟩]) := by
+  rw [readTokenG]; simp only [h, fireEv]
+
+theorem readTokenG_tryAgain (h : pushRune modes l.sm (l.char inp) = (.tryAgain, sm')) :
+    readTokenG modes inp (n + 1) start l g
+      = readTokenG modes inp n (some (start.getD l.offset)) { l with sm := sm' }
+          (g ++ [fireEv start l .tryAgain]) := by
+  rw [readTokenG]; simp only [h, fireEv]
+
+theorem readTokenG_eof (h : pushRune modes l.sm (l.char inp) = (.eof, sm')) :
+    readTokenG modes inp (n + 1) start l g
+      = some (some (.eof (start.getD l.offset)), { l with sm := sm' },
+          g ++ [fireEv start l .eof] ++
+            [.seg ⟨.pending, start.getD l.offset, l.offset⟩,
+             .ret (.eof (start.getD l.offset)) (sm'.mode.getD 0) sm'.modeStack]) := by
+  rw [readTokenG]; simp only [h, fireEv]
+
+theorem readTokenG_oob (h : pushRune modes l.sm (l.char inp) = (.oob, sm')) :
+    readTokenG modes inp (n + 1) start l g
+      = some (none, { l with sm := sm' }, g ++ [fireEv start l .oob]) := by
+  rw [readTokenG]; simp only [h, fireEv]
+
+theorem readTokenG_error (h : pushRune modes l.sm (l.char inp) = (.error, sm')) :
+    readTokenG modes inp (n + 1) start l g
+      = some (some (.err (start.getD l.offset) (l.char inp)), afterError inp { l with sm := sm' },
+          g ++ [fireEv start l .error] ++
+            [.seg ⟨.error (l.char inp), start.getD l.offset, (afterError inp { l with sm := sm' }).offset⟩,
+             .ret (.err (start.getD l.offset) (l.char inp))
+               ((afterError inp { l with sm := sm' }).sm.mode.getD 0)
+               (afterError inp { l with sm := sm' }).sm.modeStack]) := by
+  rw [readTokenG]; simp only [h, fireEv]; rfl
+
+end unfoldG
+
+/-- **Erasing the ghost log from `readTokenG` gives `readToken`.** -/
+theorem readTokenG_erase (modes : Array Mode) (inp : Input) (n : Nat) (start : Option Nat) (l : Lx)
+    (g : List Ev) :
+    (readTokenG modes inp n start l g).map (fun x => (x.1, x.2.1)) = readToken modes inp n start l := by
+  induction n generalizing start l g with
+  | zero => rfl
+  | succ n ih =>
+    generalize hpr : pushRune modes l.sm (l.char inp) = pr
+    obtain ⟨res, sm'⟩ := pr
+    cases res with
+    | consume => rw [readTokenG_consume _ _ _ _ _ _ _ hpr, readToken_consume _ _ _ _ _ _ hpr]; exact ih _ _ _
+    | accept => rw [readTokenG_accept _ _ _ _ _ _ _ hpr, readToken_accept _ _ _ _ _ _ hpr]; rfl
+    | discard => rw [readTokenG_discard _ _ _ _ _ _ _ hpr, readToken_discard _ _ _ _ _ _ hpr]; exact ih _ _ _
+    | tryAgain => rw [readTokenG_tryAgain _ _ _ _ _ _ _ hpr, readToken_tryAgain _ _ _ _ _ _ hpr]; exact ih _ _ _
+    | eof => rw [readTokenG_eof _ _ _ _ _ _ _ hpr, readToken_eof _ _ _ _ _ _ hpr]; rfl
+    | oob => rw [readTokenG_oob _ _ _ _ _ _ _ hpr, readToken_oob _ _ _ _ _ _ hpr]; rfl
+    | error => rw [readTokenG_error _ _ _ _ _ _ _ hpr, readToken_error _ _ _ _ _ _ hpr]; rfl
+
+/-- **Erasing the ghost log from `lexAllG` gives `lexAll`.** -/
+theorem lexAllG_erase (modes : Array Mode) (inp : Input) (fuel n : Nat) (l : Lx) (acc : List Tok)
+    (g : List Ev) :
+    ((lexAllG modes inp fuel n l acc g).1, (lexAllG modes inp fuel n l acc g).2.1)
+      = lexAll modes inp fuel n l acc := by
+  induction n generalizing l acc g with
+  | zero => rfl
+  | succ n ih =>
+    have he := readTokenG_erase modes inp fuel none l g
+    unfold lexAllG lexAll
+    rw [← he]
+    cases hr : readTokenG modes inp fuel none l g with
+    | none => rfl
+    | some x =>
+      obtain ⟨ot, l', g'⟩ := x
+      cases ot with
+      | none => rfl
+      | some t =>
+        cases t with
+        | eof p => rfl
+        | tok ty a b => exact ih _ _ _
+        | err a c => exact ih _ _ _
+
+/-- Induction principle for `readTokenG`: one premise per `PushRune` result. -/
+theorem readTokenG_induct (modes : Array Mode) (inp : Input)
+    (P : Option Nat → Lx → List Ev → Option Tok × Lx × List Ev → Prop)
+    (hconsume : ∀ start l g sm' out, pushRune modes l.sm (l.char inp) = (.consume, sm') →
+      P (some (start.getD l.offset)) (({ l with sm := sm' } : Lx).consume inp) g out → P start l g out)
+    (haccept : ∀ start l g sm', pushRune modes l.sm (l.char inp) = (.accept, sm') →
+      P start l g (some (.tok sm'.token (start.getD l.offset) l.offset), { l with sm := sm' },
+        g ++ [fireEv start l .accept] ++
+          [.seg ⟨.tok sm'.token, start.getD l.offset, l.offset⟩,
+           .ret (.tok sm'.token (start.getD l.offset) l.offset) (sm'.mode.getD 0) sm'.modeStack]))
+    (hdiscard : ∀ start l g sm' out, pushRune modes l.sm (l.char inp) = (.discard, sm') →
+      P none { l with sm := sm' }
+        (g ++ [fireEv start l .discard] ++ [.seg ⟨.discarded, start.getD l.offset, l.offset⟩]) out →
+      P start l g out)
+    (htry : ∀ start l g sm' out, pushRune modes l.sm (l.char inp) = (.tryAgain, sm') →
+      P (some (start.getD l.offset)) { l with sm := sm' } (g ++ [fireEv start l .tryAgain]) out →
+      P start l g out)
+    (heof : ∀ start l g sm', pushRune modes l.sm (l.char inp) = (.eof, sm') →
+      P start l g (some (.eof (start.getD l.offset)), { l with sm := sm' },
+        g ++ [fireEv start l .eof] ++
+          [.seg ⟨.pending, start.getD l.offset, l.offset⟩,
+           .ret (.eof (start.getD l.offset)) (sm'.mode.getD 0) sm'.modeStack]))
+    (hoob : ∀ start l g sm', pushRune modes l.sm (l.char inp) = (.oob, sm') →
+      P start l g (none, { l with sm := sm' }, g ++ [fireEv start l .oob]))
+    (herror : ∀ start l g sm', pushRune modes l.sm (l.char inp) = (.error, sm') →
+      P start l g (some (.err (start.getD l.offset) (l.char inp)),
+        afterError inp { l with sm := sm' },
+        g ++ [fireEv start l .error] ++
+          [.seg ⟨.error (l.char inp), start.getD l.offset,
+              (afterError inp { l with sm := sm' }).offset⟩,
+           .ret (.err (start.getD l.offset) (l.char inp))
+             ((afterError inp { l with sm := sm' }).sm.mode.getD 0)
+             (afterError inp { l with sm := sm' }).sm.modeStack])) :
+    ∀ n start l g out, readTokenG modes inp n start l g = some out → P start l g out := by
+  intro n
+  induction n with
+  | zero => intro _ _ _ _ h; cases h
+  | succ n ih =>
+    intro start l g out h
+    generalize hpr : pushRune modes l.sm (l.char inp) = pr at h
+    obtain ⟨res, sm'⟩ := pr
+    cases res with
+    | consume =>
+      rw [readTokenG_consume _ _ _ _ _ _ _ hpr] at h
+      exact hconsume _ _ _ _ _ hpr (ih _ _ _ _ h)
+    | accept =>
+      rw [readTokenG_accept _ _ _ _ _ _ _ hpr] at h
+      cases h; exact haccept _ _ _ _ hpr
+    | discard =>
+      rw [readTokenG_discard _ _ _ _ _ _ _ hpr] at h
+      exact hdiscard _ _ _ _ _ hpr (ih _ _ _ _ h)
+    | tryAgain =>
+      rw [readTokenG_tryAgain _ _ _ _ _ _ _ hpr] at h
+      exact htry _ _ _ _ _ hpr (ih _ _ _ _ h)
+    | eof =>
+      rw [readTokenG_eof _ _ _ _ _ _ _ hpr] at h
+      cases h; exact heof _ _ _ _ hpr
+    | oob =>
+      rw [readTokenG_oob _ _ _ _ _ _ _ hpr] at h
+      cases h; exact hoob _ _ _ _ hpr
+    | error =>
+      rw [readTokenG_error _ _ _ _ _ _ _ hpr] at h
+      cases h; exact herror _ _ _ _ hpr
+
+/-! ## Offsets -/
+
+theorem offsetOf_succ {inp : Input} {k : Nat} (h : k < inp.size) :
+    offsetOf inp (k + 1) = offsetOf inp k + inp[k].2 := by
+  unfold offsetOf
+  have hk : k < inp.toList.length := by simpa using h
+  rw [List.take_succ_eq_append_getElem hk]
+  simp [List.sum_append]
+
+theorem offsetOf_ge {inp : Input} {k : Nat} (h : inp.size ≤ k) : offsetOf inp k = totalBytes inp := by
+  unfold totalBytes offsetOf
+  rw [List.take_of_length_le (by simpa using h), List.take_of_length_le (by simp)]
+
+theorem offsetOf_mono (inp : Input) {j k : Nat} (h : j ≤ k) : offsetOf inp j ≤ offsetOf inp k := by
+  induction k with
+  | zero => have : j = 0 := by omega
+            subst this; exact Nat.le_refl _
+  | succ k ih =>
+    by_cases hj : j = k + 1
+    · subst hj; exact Nat.le_refl _
+    · have := ih (by omega)
+      by_cases hk : k < inp.size
+      · rw [offsetOf_succ hk]; omega
+      · rw [offsetOf_ge (k := k + 1) (by omega), ← offsetOf_ge (k := k) (by omega)]; exact this
+
+theorem consume_sync {inp : Input} {l : Lx} (h : Sync inp l) : Sync inp (l.consume inp) := by
+  unfold Sync at *
+  by_cases hlt : l.idx < inp.size
+  · obtain ⟨c1, _, c3⟩ := consume_lt hlt
+    rw [c1, c3, offsetOf_succ hlt, h]
+  · rw [consume_ge (by omega)]; exact h
+
+theorem consume_offset_le (inp : Input) (l : Lx) : l.offset ≤ (l.consume inp).offset := by
+  by_cases hlt : l.idx < inp.size
+  · rw [(consume_lt hlt).2.2]; omega
+  · rw [consume_ge (by omega)]; omega
+
+theorem skipLine_sync {inp : Input} (n : Nat) {l : Lx} (h : Sync inp l) :
+    Sync inp (skipLine inp n l) := by
+  induction n generalizing l with
+  | zero => exact h
+  | succ n ih =>
+    unfold skipLine
+    split
+    · exact ih (consume_sync h)
+    · exact h
+
+theorem skipLine_offset_le (inp : Input) (n : Nat) (l : Lx) : l.offset ≤ (skipLine inp n l).offset := by
+  induction n generalizing l with
+  | zero => exact Nat.le_refl _
+  | succ n ih =>
+    unfold skipLine
+    split
+    · exact Nat.le_trans (consume_offset_le inp l) (ih _)
+    · exact Nat.le_refl _
+
+theorem afterError_sync {inp : Input} {l : Lx} (h : Sync inp l) : Sync inp (afterError inp l) := by
+  have := consume_sync (skipLine_sync (inp.size + 1) h)
+  simpa [afterError, Sync] using this
+
+theorem afterError_offset_le (inp : Input) (l : Lx) : l.offset ≤ (afterError inp l).offset := by
+  simp only [afterError]
+  exact Nat.le_trans (skipLine_offset_le inp _ l) (consume_offset_le inp _)
+
+/-! ## Segments -/
+
+@[simp] theorem segsOf_append (a b : List Ev) : segsOf (a ++ b) = segsOf a ++ segsOf b := by
+  simp [segsOf, List.filterMap_append]
+
+@[simp] theorem segsOf_nil : segsOf [] = [] := rfl
+
+@[simp] theorem segsOf_cons_fire (start : Option Nat) (l : Lx) (res : Res) (rest : List Ev) :
+    segsOf (fireEv start l res :: rest) = segsOf rest := rfl
+
+@[simp] theorem segsOf_cons_seg (s : Seg) (rest : List Ev) :
+    segsOf (.seg s :: rest) = s :: segsOf rest := rfl
+
+@[simp] theorem segsOf_cons_ret (t : Tok) (mo : Nat) (st : List Nat) (rest : List Ev) :
+    segsOf (.ret t mo st :: rest) = segsOf rest := rfl
+
+theorem contig_snoc (xs : List Seg) (s : Seg) (a b : Nat) :
+    Contig (xs ++ [s]) a b ↔ Contig xs a s.start ∧ s.start ≤ s.stop ∧ s.stop = b := by
+  induction xs generalizing a with
+  | nil =>
+    simp only [List.nil_append, Contig]
+    constructor
+    · rintro ⟨h1, h2, h3⟩; exact ⟨h1.symm, h2, h3⟩
+    · rintro ⟨h1, h2, h3⟩; exact ⟨h1.symm, h2, h3⟩
+  | cons x rest ih =>
+    simp only [List.cons_append, Contig, ih]
+    constructor
+    · rintro ⟨h1, h2, h3, h4, h5⟩; exact ⟨⟨h1, h2, h3⟩, h4, h5⟩
+    · rintro ⟨⟨h1, h2, h3⟩, h4, h5⟩; exact ⟨h1, h2, h3, h4, h5⟩
+
+/-- **Contiguity through one `ReadToken` call.** Whatever the table: if the segments logged so
+far run contiguously from `a` to the pending token start, then after the call they run
+contiguously from `a` to the driver's offset; the offset only grows and stays in step with the
+rune index. -/
+theorem readTokenG_contig (modes : Array Mode) (inp : Input) (n : Nat) (start : Option Nat)
+    (l : Lx) (g : List Ev) (out : Option Tok × Lx × List Ev)
+    (h : readTokenG modes inp n start l g = some out) (a : Nat)
+    (hc : Contig (segsOf g) a (start.getD l.offset)) (hle : start.getD l.offset ≤ l.offset)
+    (hs : Sync inp l) :
+    Sync inp out.2.1 ∧ l.offset ≤ out.2.1.offset ∧
+      (out.1 ≠ none → Contig (segsOf out.2.2) a out.2.1.offset) := by
+  revert a hle hs
+  refine readTokenG_induct modes inp
+    (fun start l g out => ∀ a, Contig (segsOf g) a (start.getD l.offset) →
+      start.getD l.offset ≤ l.offset → Sync inp l →
+      Sync inp out.2.1 ∧ l.offset ≤ out.2.1.offset ∧
+        (out.1 ≠ none → Contig (segsOf out.2.2) a out.2.1.offset))
+    ?_ ?_ ?_ ?_ ?_ ?_ ?_ n start l g out h
+  · intro start l g sm' out _ ih a hc hle hs
+    have hco := consume_offset_le inp ({ l with sm := sm' } : Lx)
+    obtain ⟨i1, i2, i3⟩ := ih a hc (Nat.le_trans hle hco) (consume_sync (l := { l with sm := sm' }) hs)
+    exact ⟨i1, Nat.le_trans hco i2, i3⟩
+  · intro start l g sm' _ a hc hle hs
+    refine ⟨hs, Nat.le_refl _, fun _ => ?_⟩
+    simp only [segsOf_append, segsOf_cons_fire, segsOf_cons_seg, segsOf_cons_ret, segsOf_nil,
+      List.append_assoc, List.nil_append]
+    exact (contig_snoc _ _ _ _).2 ⟨hc, hle, rfl⟩
+  · intro start l g sm' out _ ih a hc hle hs
+    refine ih a ?_ (Nat.le_refl _) hs
+    simp only [segsOf_append, segsOf_cons_fire, segsOf_cons_seg, segsOf_nil,
+      List.append_assoc, List.nil_append]
+    exact (contig_snoc _ _ _ _).2 ⟨hc, hle, rfl⟩
+  · intro start l g sm' out _ ih a hc hle hs
+    refine ih a ?_ hle hs
+    simpa using hc
+  · intro start l g sm' _ a hc hle hs
+    refine ⟨hs, Nat.le_refl _, fun _ => ?_⟩
+    simp only [segsOf_append, segsOf_cons_fire, segsOf_cons_seg, segsOf_cons_ret, segsOf_nil,
+      List.append_assoc, List.nil_append]
+    exact (contig_snoc _ _ _ _).2 ⟨hc, hle, rfl⟩
+  · intro start l g sm' _ a hc hle hs
+    exact ⟨hs, Nat.le_refl _, fun h => absurd rfl h⟩
+  · intro start l g sm' _ a hc hle hs
+    have hao := afterError_offset_le inp ({ l with sm := sm' } : Lx)
+    refine ⟨afterError_sync (l := { l with sm := sm' }) hs, hao, fun _ => ?_⟩
+    simp only [segsOf_append, segsOf_cons_fire, segsOf_cons_seg, segsOf_cons_ret, segsOf_nil,
+      List.append_assoc, List.nil_append]
+    exact (contig_snoc _ _ _ _).2 ⟨hc, Nat.le_trans hle hao, rfl⟩
+
+/-- **Every returned token is the report of the one new reported segment**; discarded segments
+are the only other new ones. -/
+theorem readTokenG_reports (modes : Array Mode) (inp : Input) (n : Nat) (start : Option Nat)
+    (l : Lx) (g : List Ev) (out : Option Tok × Lx × List Ev)
+    (h : readTokenG modes inp n start l g = some out) :
+    (segsOf out.2.2).filterMap Seg.report = (segsOf g).filterMap Seg.report ++ out.1.toList := by
+  refine readTokenG_induct modes inp
+    (fun _ _ g out =>
+      (segsOf out.2.2).filterMap Seg.report = (segsOf g).filterMap Seg.report ++ out.1.toList)
+    ?_ ?_ ?_ ?_ ?_ ?_ ?_ n start l g out h
+  · intro _ _ _ _ _ _ ih; exact ih
+  · intro _ _ _ _ _; simp [Seg.report]
+  · intro _ _ _ _ _ _ ih; rw [ih]; simp [Seg.report]
+  · intro _ _ _ _ _ _ ih; rw [ih]; simp
+  · intro _ _ _ _ _; simp [Seg.report]
+  · intro _ _ _ _ _; simp
+  · intro _ _ _ _ _; simp [Seg.report]
+
+/-- **`accum_prefix`, general form**: the first segment closed by a `ReadToken` iteration that
+runs with token start `s` begins at `s` and ends at or after the current offset. -/
+theorem readTokenG_first_seg (modes : Array Mode) (inp : Input) (n : Nat) (start : Option Nat)
+    (l : Lx) (g : List Ev) (out : Option Tok × Lx × List Ev)
+    (h : readTokenG modes inp n start l g = some out) (hno : out.1 ≠ none) :
+    ∃ seg rest, segsOf out.2.2 = segsOf g ++ seg :: rest ∧ seg.start = start.getD l.offset ∧
+      l.offset ≤ seg.stop := by
+  revert hno
+  refine readTokenG_induct modes inp
+    (fun start l g out => out.1 ≠ none →
+      ∃ seg rest, segsOf out.2.2 = segsOf g ++ seg :: rest ∧ seg.start = start.getD l.offset ∧
+        l.offset ≤ seg.stop)
+    ?_ ?_ ?_ ?_ ?_ ?_ ?_ n start l g out h
+  · intro start l g sm' out _ ih hno
+    obtain ⟨seg, rest, e1, e2, e3⟩ := ih hno
+    exact ⟨seg, rest, e1, e2, Nat.le_trans (consume_offset_le inp ({ l with sm := sm' } : Lx)) e3⟩
+  · intro start l g sm' _ _
+    exact ⟨⟨.tok sm'.token, start.getD l.offset, l.offset⟩, [], by simp, rfl, Nat.le_refl _⟩
+  · intro start l g sm' out _ ih hno
+    obtain ⟨seg, rest, e1, _, _⟩ := ih hno
+    exact ⟨⟨.discarded, start.getD l.offset, l.offset⟩, seg :: rest, by simp [e1], rfl,
+      Nat.le_refl _⟩
+  · intro start l g sm' out _ ih hno
+    obtain ⟨seg, rest, e1, e2, e3⟩ := ih hno
+    exact ⟨seg, rest, by simpa using e1, e2, e3⟩
+  · intro start l g sm' _ _
+    exact ⟨⟨.pending, start.getD l.offset, l.offset⟩, [], by simp, rfl, Nat.le_refl _⟩
+  · intro start l g sm' _ hno; exact absurd rfl hno
+  · intro start l g sm' _ _
+    exact ⟨⟨.error (l.char inp), start.getD l.offset, (afterError inp { l with sm := sm' }).offset⟩,
+      [], by simp, rfl, afterError_offset_le inp ({ l with sm := sm' } : Lx)⟩
+
+/-! ## `_lexerEOF` is only returned for the end-of-input marker (any table) -/
+
+theorem runActions_eof (modes : Array Mode) (m : Mode) (r : Int) (fuel : Nat) (i stop : Int)
+    (sm sm' : SM) (h : runActions modes m r fuel i stop sm = some (.eof, sm')) : r = -1 := by
+  fun_induction runActions modes m r fuel i stop sm <;> simp_all
+
+theorem pushRune_eof (modes : Array Mode) (sm sm' : SM) (r : Int)
+    (h : pushRune modes sm r = (.eof, sm')) : r = -1 := by
+  unfold pushRune at h
+  simp only at h
+  repeat' split at h
+  all_goals first
+    | (cases h; done)
+    | (rename_i hra; subst h; exact runActions_eof _ _ _ _ _ _ _ _ hra)
+
+/-! ## One `PushRune` call against the abstract mode stack -/
+
+/-- What one `PushRune` call does to `(mode, modeStack)`. -/
+structure StepAbs (ps : List Pair) (sm : SM) (res : Res) (sm' : SM) : Prop where
+  /-- consuming a rune does not touch the modes -/
+  consume : res = .consume → sm'.mode.getD 0 = sm.mode.getD 0 ∧ sm'.modeStack = sm.modeStack
+  /-- otherwise the push/pop pairs of the current row are applied in order (up to the first pop on
+  an empty stack) -/
+  fire : res ≠ .consume → (sm'.mode.getD 0, sm'.modeStack) =
+    applyModeActsT ps (sm.mode.getD 0, sm.modeStack)
+  /-- `_lexerTryAgain` comes from an accumulate pair -/
+  tryAgain : res = .tryAgain → ∃ p ∈ ps, p.1 = 5
+
+theorem pushRune_stepAbs {modes : Array Mode} (hwf : WFModes modes) {sm : SM}
+    (hin : InRange modes sm) (r : Int) :
+    StepAbs (rowPairs modes (sm.mode.getD 0) sm.state) sm
+      (pushRune modes sm r).1 (pushRune modes sm r).2 := by
+  obtain ⟨⟨hmo, hstack⟩, hst0, m, hm, hlt⟩ := hin
+  obtain ⟨hn, hrows⟩ := hwf.2 _ m hm
+  obtain ⟨row, hrow, rwf⟩ := hrows _ hlt
+  have hcast : ((sm.state.toNat : Nat) : Int) = sm.state := by omega
+  rw [hcast] at hrow
+  rw [pushRune_eq_stepRow modes sm r m row hm hrow rwf.sorted.1
+    (fun t ht => (rwf.sorted.2 t ht).2)]
+  have hrp : rowPairs modes (sm.mode.getD 0) sm.state = row.pairs := by
+    simp only [rowPairs, hm, hrow]
+  rw [hrp]
+  generalize hsm0 : ({ sm with mode := some (sm.mode.getD 0) } : SM) = sm0
+  have e2 : sm0.mode = some (sm.mode.getD 0) := by subst hsm0; rfl
+  have e3 : sm0.modeStack = sm.modeStack := by subst hsm0; rfl
+  unfold stepRow
+  cases hl : (if row.flags % 2 = 0 then lookup row.triples r else none) with
+  | some st =>
+    dsimp only
+    exact ⟨fun _ => ⟨by simp [e2], e3⟩, fun h => absurd rfl h, (fun h => by cases h)⟩
+  | none =>
+    dsimp only
+    rcases rwf.pairs with hnil | ⟨pre, t, hps, hpre, ht⟩
+    · rw [hnil]
+      unfold execPairs
+      split
+      · dsimp only
+        exact ⟨(fun h => by cases h), (fun _ => by simp [applyModeActsT, e2, e3]),
+          (fun h => by cases h)⟩
+      · dsimp only
+        exact ⟨(fun h => by cases h), (fun _ => by simp [applyModeActsT, e2, e3]),
+          (fun h => by cases h)⟩
+    · rw [hps, execPairs_wf modes.size r pre t sm0 _ hpre ht e2, e3]
+      have hT := applyModeActsT_append_terminal pre t (sm.mode.getD 0, sm.modeStack) ht
+      cases ha : applyModeActs pre (sm.mode.getD 0, sm.modeStack) with
+      | none =>
+        dsimp only
+        exact ⟨(fun h => by cases h), (fun _ => by rw [hT]; simp), (fun h => by cases h)⟩
+      | some ms =>
+        dsimp only
+        have hms := applyModeActs_eq_T ha
+        obtain ⟨hres, hst, hmode, hstk⟩ :=
+          terminalEffect_cases t { sm0 with mode := some ms.1, modeStack := ms.2 }
+        have htry : (terminalEffect t { sm0 with mode := some ms.1, modeStack := ms.2 }).1 = .tryAgain →
+            t.1 = 5 := by
+          unfold terminalEffect
+          split
+          · intro h; cases h
+          · split
+            · intro h; cases h
+            · intro _; omega
+        refine ⟨?_, ?_, ?_⟩
+        · intro h; rcases hres with h' | h' | h' <;> rw [h'] at h <;> cases h
+        · intro _
+          rw [hmode, hstk, hT, hms]
+          simp
+        · intro h
+          exact ⟨t, by simp, htry h⟩
+
+theorem absRun_append (modes : Array Mode) (a b : List Ev) (ms : MS) :
+    absRun modes (a ++ b) ms = absRun modes b (absRun modes a ms) := by
+  induction a generalizing ms with
+  | nil => rfl
+  | cons ev rest ih => simp only [List.cons_append, absRun]; exact ih _
+
+theorem absAgrees_append (modes : Array Mode) (a b : List Ev) (ms : MS) :
+    AbsAgrees modes (a ++ b) ms ↔ AbsAgrees modes a ms ∧ AbsAgrees modes b (absRun modes a ms) := by
+  induction a generalizing ms with
+  | nil => simp [AbsAgrees, absRun]
+  | cons ev rest ih =>
+    simp only [List.cons_append, AbsAgrees, absRun, ih, and_assoc]
+
+/-- **Mode-stack discipline through one `ReadToken` call.** On a well-formed table: if the
+abstract mode stack obtained by replaying the log agrees with the state machine before the call,
+it agrees after it – at every row that fired and at the return. -/
+theorem readTokenG_abs {modes : Array Mode} (hwf : WFModes modes) (inp : Input) (n : Nat)
+    (start : Option Nat) (l : Lx) (g : List Ev) (out : Option Tok × Lx × List Ev)
+    (h : readTokenG modes inp n start l g = some out) (ms0 : MS)
+    (hin : InRange modes l.sm) (hag : AbsAgrees modes g ms0)
+    (hrun : absRun modes g ms0 = (l.sm.mode.getD 0, l.sm.modeStack)) :
+    out.1 ≠ none ∧ InRange modes out.2.1.sm ∧ AbsAgrees modes out.2.2 ms0 ∧
+      absRun modes out.2.2 ms0 = (out.2.1.sm.mode.getD 0, out.2.1.sm.modeStack) := by
+  revert hin hag hrun
+  refine readTokenG_induct modes inp
+    (fun start l g out => InRange modes l.sm → AbsAgrees modes g ms0 →
+      absRun modes g ms0 = (l.sm.mode.getD 0, l.sm.modeStack) →
+      out.1 ≠ none ∧ InRange modes out.2.1.sm ∧ AbsAgrees modes out.2.2 ms0 ∧
+        absRun modes out.2.2 ms0 = (out.2.1.sm.mode.getD 0, out.2.1.sm.modeStack))
+    ?_ ?_ ?_ ?_ ?_ ?_ ?_ n start l g out h
+  · intro start l g sm' out hpr ih hin hag hrun
+    have hok := pushRune_stepOK hwf hin (l.char inp)
+    have hab := pushRune_stepAbs hwf hin (l.char inp)
+    rw [hpr] at hok hab
+    obtain ⟨a1, a2⟩ := hab.consume rfl
+    simp only at a1 a2
+    refine ih ?_ hag ?_
+    · rw [consume_sm]; exact hok.inRange (by simp)
+    · rw [consume_sm]; simp only; rw [a1, a2]; exact hrun
+  all_goals
+    intro start l g sm'
+  · intro hpr hin hag hrun
+    have hok := pushRune_stepOK hwf hin (l.char inp)
+    have hab := pushRune_stepAbs hwf hin (l.char inp)
+    rw [hpr] at hok hab
+    have hf := hab.fire (by simp)
+    simp only at hf
+    refine ⟨by simp, hok.inRange (by simp), ?_, ?_⟩
+    · rw [List.append_assoc, absAgrees_append]
+      refine ⟨hag, ?_⟩
+      rw [hrun]
+      simp [AbsAgrees, fireEv, absStep, hf]
+    · rw [List.append_assoc, absRun_append, hrun]
+      simp [absRun, fireEv, absStep, hf]
+  · intro out hpr ih hin hag hrun
+    have hok := pushRune_stepOK hwf hin (l.char inp)
+    have hab := pushRune_stepAbs hwf hin (l.char inp)
+    rw [hpr] at hok hab
+    have hf := hab.fire (by simp)
+    simp only at hf
+    refine ih (hok.inRange (by simp)) ?_ ?_
+    · rw [List.append_assoc, absAgrees_append]
+      refine ⟨hag, ?_⟩
+      rw [hrun]
+      simp [AbsAgrees, fireEv]
+    · rw [List.append_assoc, absRun_append, hrun]
+      simp [absRun, fireEv, absStep, hf]
+  · intro out hpr ih hin hag hrun
+    have hok := pushRune_stepOK hwf hin (l.char inp)
+    have hab := pushRune_stepAbs hwf hin (l.char inp)
+    rw [hpr] at hok hab
+    have hf := hab.fire (by simp)
+    simp only at hf
+    refine ih (hok.inRange (by simp)) ?_ ?_
+    · rw [absAgrees_append]
+      refine ⟨hag, ?_⟩
+      rw [hrun]
+      simp [AbsAgrees, fireEv]
+    · rw [absRun_append, hrun]
+      simp [absRun, fireEv, absStep, hf]
+  · intro hpr hin hag hrun
+    have hok := pushRune_stepOK hwf hin (l.char inp)
+    have hab := pushRune_stepAbs hwf hin (l.char inp)
+    rw [hpr] at hok hab
+    have hf := hab.fire (by simp)
+    simp only at hf
+    refine ⟨by simp, hok.inRange (by simp), ?_, ?_⟩
+    · rw [List.append_assoc, absAgrees_append]
+      refine ⟨hag, ?_⟩
+      rw [hrun]
+      simp [AbsAgrees, fireEv, absStep, hf]
+    · rw [List.append_assoc, absRun_append, hrun]
+      simp [absRun, fireEv, absStep, hf]
+  · intro hpr hin _ _
+    have hok := pushRune_stepOK hwf hin (l.char inp)
+    rw [hpr] at hok
+    exact absurd rfl hok.noOob
+  · intro hpr hin hag hrun
+    have hok := pushRune_stepOK hwf hin (l.char inp)
+    have hab := pushRune_stepAbs hwf hin (l.char inp)
+    rw [hpr] at hok hab
+    have hf := hab.fire (by simp)
+    simp only at hf
+    have hsm := afterError_sm inp ({ l with sm := sm' } : Lx)
+    simp only at hsm
+    refine ⟨by simp, ?_, ?_, ?_⟩
+    · rw [hsm]; exact inRange_reset hwf hok.modesOK
+    · rw [List.append_assoc, absAgrees_append]
+      refine ⟨hag, ?_⟩
+      rw [hrun, hsm]
+      simp [AbsAgrees, fireEv, absStep, SM.reset, ← hf]
+    · rw [List.append_assoc, absRun_append, hrun, hsm]
+      simp [absRun, fireEv, absStep, SM.reset, ← hf]
+
+theorem readTokenG_eof_char (modes : Array Mode) (inp : Input) (n : Nat) (start : Option Nat)
+    (l : Lx) (g : List Ev) (out : Option Tok × Lx × List Ev)
+    (h : readTokenG modes inp n start l g = some out) (p : Nat) (hp : out.1 = some (.eof p)) :
+    out.2.1.char inp = -1 := by
+  revert hp
+  refine readTokenG_induct modes inp
+    (fun _ _ _ out => out.1 = some (.eof p) → out.2.1.char inp = -1)
+    ?_ ?_ ?_ ?_ ?_ ?_ ?_ n start l g out h
+  · intro _ _ _ _ _ _ ih; exact ih
+  · intro _ _ _ _ _ h; simp at h
+  · intro _ _ _ _ _ _ ih; exact ih
+  · intro _ _ _ _ _ _ ih; exact ih
+  · intro _ l _ sm' hpr _; exact pushRune_eof _ _ _ _ hpr
+  · intro _ _ _ _ _ h; simp at h
+  · intro _ _ _ _ _ h; simp at h
+
+/-! ## `skipLine`: the error stretch -/
+
+/-- `skipLine` with enough fuel stops exactly at the first `'\n'` or at the end-of-input marker:
+every rune it steps over is neither. -/
+theorem skipLine_spec (inp : Input) (n : Nat) (l : Lx) (hn : inp.size - l.idx < n) :
+    l.idx ≤ (skipLine inp n l).idx ∧
+    (∀ j, l.idx ≤ j → j < (skipLine inp n l).idx → ∃ p, inp[j]? = some p ∧ p.1 ≠ 10 ∧ p.1 ≠ -1) ∧
+    ((skipLine inp n l).char inp = 10 ∨ (skipLine inp n l).char inp = -1) := by
+  induction n generalizing l with
+  | zero => omega
+  | succ n ih =>
+    unfold skipLine
+    split
+    · rename_i hc
+      have hlt : l.idx < inp.size := idx_lt_of_char_ne hc.2
+      obtain ⟨c1, _, _⟩ := consume_lt hlt
+      obtain ⟨i1, i2, i3⟩ := ih (l.consume inp) (by rw [c1]; omega)
+      rw [c1] at i1 i2
+      refine ⟨by omega, ?_, i3⟩
+      intro j hj1 hj2
+      by_cases hj : j = l.idx
+      · subst hj
+        refine ⟨inp[l.idx], Array.getElem?_eq_getElem hlt, ?_⟩
+        unfold Lx.char at hc
+        rw [Array.getElem?_eq_getElem hlt] at hc
+        exact hc
+      · exact i2 j (by omega) hj2
+    · rename_i hc
+      refine ⟨Nat.le_refl _, fun j h1 h2 => by omega, ?_⟩
+      by_cases h10 : l.char inp = 10
+      · exact Or.inl h10
+      · right
+        by_cases h1 : l.char inp = -1
+        · exact h1
+        · exact absurd ⟨h10, h1⟩ hc
+
+/-- **The error stretch.** After an ERROR token on a valid input the driver stands just after the
+first `'\n'` at or after the offending rune, or at the end of the input when there is none. -/
+theorem afterError_spec (inp : Input) (hv : ValidInput inp) (l : Lx) (hidx : l.idx ≤ inp.size) :
+    ∃ k, l.idx ≤ k ∧ k ≤ inp.size ∧
+      (∀ j, l.idx ≤ j → j < k → ∃ p, inp[j]? = some p ∧ p.1 ≠ 10) ∧
+      (k = inp.size ∨ ∃ p, inp[k]? = some p ∧ p.1 = 10) ∧
+      (afterError inp l).idx = min (k + 1) inp.size := by
+  obtain ⟨s1, s2, s3⟩ := skipLine_spec inp (inp.size + 1) l (by omega)
+  have hle := skipLine_idx_le_size (inp.size + 1) hidx
+  refine ⟨(skipLine inp (inp.size + 1) l).idx, s1, hle, ?_, ?_, ?_⟩
+  · intro j h1 h2
+    obtain ⟨p, hp, h10, _⟩ := s2 j h1 h2
+    exact ⟨p, hp, h10⟩
+  · by_cases hlt : (skipLine inp (inp.size + 1) l).idx < inp.size
+    · right
+      refine ⟨inp[(skipLine inp (inp.size + 1) l).idx], Array.getElem?_eq_getElem hlt, ?_⟩
+      unfold Lx.char at s3
+      rw [Array.getElem?_eq_getElem hlt] at s3
+      simp only at s3
+      have := hv inp[(skipLine inp (inp.size + 1) l).idx] (by simp)
+      omega
+    · left; omega
+  · simp only [afterError]
+    by_cases hlt : (skipLine inp (inp.size + 1) l).idx < inp.size
+    · rw [(consume_lt hlt).1]; omega
+    · rw [consume_ge (by omega)]; omega
+
+/-! ## Whole runs -/
+
+/-- Invariant transfer for `lexAllG`: an invariant kept by every `ReadToken` call holds at the end
+of a run that reached EOF. -/
+theorem lexAllG_inv (modes : Array Mode) (inp : Input) (fuel : Nat)
+    (I : Lx → List Tok → List Ev → Prop)
+    (hstep : ∀ l acc g t l' g', I l acc g →
+      readTokenG modes inp fuel none l g = some (some t, l', g') → I l' (t :: acc) g') :
+    ∀ n l acc g toks gf, I l acc g → lexAllG modes inp fuel n l acc g = (toks, "ok", gf) →
+      ∃ lf accf p, I lf (.eof p :: accf) gf ∧ toks = (.eof p :: accf).reverse := by
+  intro n
+  induction n with
+  | zero => intro l acc g toks gf _ h; simp [lexAllG] at h
+  | succ n ih =>
+    intro l acc g toks gf hI h
+    unfold lexAllG at h
+    cases hr : readTokenG modes inp fuel none l g with
+    | none => rw [hr] at h; simp at h
+    | some x =>
+      obtain ⟨ot, l', g'⟩ := x
+      rw [hr] at h
+      cases ot with
+      | none => simp at h
+      | some t =>
+        have hI' := hstep l acc g t l' g' hI hr
+        cases t with
+        | eof p =>
+          simp only [Prod.mk.injEq, true_and] at h
+          obtain ⟨h1, h2⟩ := h
+          subst h1 h2
+          exact ⟨l', acc, p, hI', rfl⟩
+        | tok ty a b => exact ih _ _ _ _ _ hI' h
+        | err a c => exact ih _ _ _ _ _ hI' h
+
+/-- The conservation invariant of a run. -/
+def ConsInv (inp : Input) (l : Lx) (acc : List Tok) (g : List Ev) : Prop :=
+  Sync inp l ∧ Contig (segsOf g) 0 l.offset ∧ (segsOf g).filterMap Seg.report = acc.reverse ∧
+  ∀ p rest, acc = .eof p :: rest → l.char inp = -1
+
+theorem consInv_step (modes : Array Mode) (inp : Input) (fuel : Nat) (l : Lx) (acc : List Tok)
+    (g : List Ev) (t : Tok) (l' : Lx) (g' : List Ev) (hI : ConsInv inp l acc g)
+    (h : readTokenG modes inp fuel none l g = some (some t, l', g')) :
+    ConsInv inp l' (t :: acc) g' := by
+  obtain ⟨i1, i2, i3, _⟩ := hI
+  obtain ⟨c1, _, c3⟩ := readTokenG_contig modes inp fuel none l g _ h 0 (by simpa using i2)
+    (by simp) i1
+  have hrep := readTokenG_reports modes inp fuel none l g _ h
+  refine ⟨c1, c3 (by simp), ?_, ?_⟩
+  · simp only at hrep
+    rw [hrep, i3]; simp
+  · intro p rest he
+    simp only [List.cons.injEq] at he
+    exact readTokenG_eof_char modes inp fuel none l g _ h p (by simp [he.1])
+
+theorem consInv_init (inp : Input) : ConsInv inp {} [] [] := by
+  refine ⟨by simp [Sync, offsetOf], by simp [Contig], by simp, by simp⟩
+
+/-- **Conservation, any table.** If a run of the ghost driver on a valid input reaches EOF
+(status `"ok"`), the logged segments are contiguous, in order, start at byte 0 and end at the
+byte length of the input; and the tokens returned are exactly the reports of the segments, in
+order (discarded segments report nothing). -/
+theorem lexAllG_conservation (modes : Array Mode) (inp : Input) (hv : ValidInput inp)
+    (fuel n : Nat) (toks : List Tok) (log : List Ev)
+    (h : lexAllG modes inp fuel n {} [] [] = (toks, "ok", log)) :
+    Contig (segsOf log) 0 (totalBytes inp) ∧ (segsOf log).filterMap Seg.report = toks := by
+  obtain ⟨lf, accf, p, ⟨i1, i2, i3, i4⟩, e⟩ :=
+    lexAllG_inv modes inp fuel (ConsInv inp) (consInv_step modes inp fuel) n {} [] [] toks log
+      (consInv_init inp) h
+  have hc := i4 p accf rfl
+  have hge : inp.size ≤ lf.idx := by
+    by_cases hlt : lf.idx < inp.size
+    · exfalso
+      unfold Lx.char at hc
+      rw [Array.getElem?_eq_getElem hlt] at hc
+      have := hv inp[lf.idx] (by simp)
+      simp only at hc
+      omega
+    · omega
+  have : lf.offset = totalBytes inp := by rw [i1, offsetOf_ge hge]
+  rw [this] at i2
+  exact ⟨i2, by rw [i3, e]⟩
+
+/-! ## Contiguous segments partition the bytes -/
+
+theorem contig_le {segs : List Seg} {a b : Nat} (h : Contig segs a b) : a ≤ b := by
+  induction segs generalizing a with
+  | nil => simp only [Contig] at h; omega
+  | cons s rest ih =>
+    obtain ⟨h1, h2, h3⟩ := h
+    have := ih h3
+    omega
+
+/-- Concatenating the stretches of contiguous segments gives back the bytes between the two ends. -/
+theorem contig_concat {α : Type} (bytes : List α) {segs : List Seg} {a b : Nat}
+    (h : Contig segs a b) :
+    (segs.map fun s => (bytes.drop s.start).take (s.stop - s.start)).flatten
+      = (bytes.drop a).take (b - a) := by
+  induction segs generalizing a with
+  | nil => simp only [Contig] at h; subst h; simp
+  | cons s rest ih =>
+    obtain ⟨h1, h2, h3⟩ := h
+    have hle := contig_le h3
+    simp only [List.map_cons, List.flatten_cons, ih h3]
+    subst h1
+    have e : b - s.start = (s.stop - s.start) + (b - s.stop) := by omega
+    rw [e, List.take_add, List.drop_drop]
+    congr 3
+    omega
+
+/-- Every byte offset between the two ends lies in exactly one of the contiguous segments. -/
+theorem contig_unique {segs : List Seg} {a b : Nat} (h : Contig segs a b) (x : Nat)
+    (hax : a ≤ x) (hxb : x < b) :
+    (segs.filter fun s => decide (s.start ≤ x ∧ x < s.stop)).length = 1 := by
+  have hnone : ∀ {segs : List Seg} {c b : Nat}, Contig segs c b → x < c →
+      (segs.filter fun s => decide (s.start ≤ x ∧ x < s.stop)) = [] := by
+    intro segs
+    induction segs with
+    | nil => intro _ _ _ _; rfl
+    | cons s rest ih =>
+      intro c b hc hx
+      obtain ⟨h1, h2, h3⟩ := hc
+      have : ¬ (s.start ≤ x ∧ x < s.stop) := by omega
+      simp only [List.filter_cons, this, decide_false]
+      exact ih h3 (by omega)
+  induction segs generalizing a with
+  | nil => simp only [Contig] at h; omega
+  | cons s rest ih =>
+    obtain ⟨h1, h2, h3⟩ := h
+    by_cases hx : x < s.stop
+    · have : s.start ≤ x ∧ x < s.stop := by omega
+      simp only [List.filter_cons, this, decide_true, and_self, if_true, List.length_cons]
+      rw [hnone h3 hx]; rfl
+    · have : ¬ (s.start ≤ x ∧ x < s.stop) := by omega
+      simp only [List.filter_cons, this, decide_false]
+      exact ih h3 (by omega)
+
+/-- **Mode-stack discipline over a whole run.** On a well-formed table the abstract mode stack
+replayed from the ghost log agrees with the state machine at every row that fired and at every
+return of `ReadToken`, whatever the fuel (also on a run cut short by `"timeout"`). -/
+theorem lexAllG_abs {modes : Array Mode} (hwf : WFModes modes) (inp : Input) (fuel : Nat) (ms0 : MS) :
+    ∀ n l acc g, InRange modes l.sm → AbsAgrees modes g ms0 →
+      absRun modes g ms0 = (l.sm.mode.getD 0, l.sm.modeStack) →
+      AbsAgrees modes (lexAllG modes inp fuel n l acc g).2.2 ms0 := by
+  intro n
+  induction n with
+  | zero => intro l acc g _ hag _; exact hag
+  | succ n ih =>
+    intro l acc g hin hag hrun
+    unfold lexAllG
+    cases hr : readTokenG modes inp fuel none l g with
+    | none => exact hag
+    | some x =>
+      obtain ⟨a1, a2, a3, a4⟩ := readTokenG_abs hwf inp fuel none l g x hr ms0 hin hag hrun
+      obtain ⟨ot, l', g'⟩ := x
+      cases ot with
+      | none => exact absurd rfl a1
+      | some t =>
+        cases t with
+        | eof p => exact a3
+        | tok ty a b => exact ih _ _ _ a2 a3 a4
+        | err a c => exact ih _ _ _ a2 a3 a4
+
+/-- `AbsAgrees` read at one `ret` event: the abstract mode stack after the prefix of the log up to
+and including that return is the recorded `(mode, stack)`. -/
+theorem absAgrees_at_ret (modes : Array Mode) (pre post : List Ev) (t : Tok) (mo : Nat)
+    (st : List Nat) (ms0 : MS) (h : AbsAgrees modes (pre ++ .ret t mo st :: post) ms0) :
+    absRun modes (pre ++ [.ret t mo st]) ms0 = (mo, st) := by
+  rw [absAgrees_append] at h
+  rw [absRun_append]
+  exact h.2.1
+
+/-- At a `fire` event the abstract current mode is the mode whose row fired. -/
+theorem absAgrees_at_fire (modes : Array Mode) (pre post : List Ev) (mode : Nat) (state : Int)
+    (res : Res) (a b : Nat) (ms0 : MS)
+    (h : AbsAgrees modes (pre ++ .fire mode state res a b :: post) ms0) :
+    (absRun modes pre ms0).1 = mode := by
+  rw [absAgrees_append] at h
+  exact h.2.1
+
+/-! ## No accumulate pair, no pending text (the complement of K5) -/
+
+theorem noAccum_iff (modes : Array Mode) : noAccum modes = true ↔ NoAccum modes := by
+  unfold noAccum NoAccum
+  simp only [List.all_eq_true, List.mem_range]
+  constructor
+  · intro h mi m hm s hs row hrow p hp
+    have := h m (List.mem_iff_getElem?.2 ⟨mi, by rw [Array.getElem?_toList]; exact hm⟩) s hs
+    rw [hrow] at this
+    simp only [List.all_eq_true, decide_eq_true_eq] at this
+    exact this p hp
+  · intro h m hm s hs
+    obtain ⟨mi, hmi⟩ := List.mem_iff_getElem?.1 hm
+    rw [Array.getElem?_toList] at hmi
+    cases hrow : decodeRow m (s : Int) with
+    | none => rfl
+    | some row =>
+      simp only [List.all_eq_true, decide_eq_true_eq]
+      exact h mi m hmi s hs row hrow
+
+theorem pushRune_no_tryAgain {modes : Array Mode} (hwf : WFModes modes) (hna : NoAccum modes)
+    {sm : SM} (hin : InRange modes sm) (r : Int) : (pushRune modes sm r).1 ≠ .tryAgain := by
+  intro h
+  obtain ⟨p, hp, h5⟩ := (pushRune_stepAbs hwf hin r).tryAgain h
+  obtain ⟨_, hst0, m, hm, hlt⟩ := hin
+  have hcast : ((sm.state.toNat : Nat) : Int) = sm.state := by omega
+  unfold rowPairs at hp
+  rw [hm] at hp
+  simp only at hp
+  cases hrow : decodeRow m sm.state with
+  | none => rw [hrow] at hp; simp at hp
+  | some row =>
+    rw [hrow] at hp
+    exact hna _ m hm _ hlt row (by rw [hcast]; exact hrow) p hp h5
+
+/-- Without accumulate pairs every `pending` segment is empty: the driver never returns EOF with
+text in hand. -/
+theorem readTokenG_pending {modes : Array Mode} (hwf : WFModes modes) (hna : NoAccum modes)
+    (inp : Input) (n : Nat) (start : Option Nat) (l : Lx) (g : List Ev)
+    (out : Option Tok × Lx × List Ev) (h : readTokenG modes inp n start l g = some out)
+    (hin : InRange modes l.sm) (hst : l.sm.state = 0 → start.getD l.offset = l.offset)
+    (hg : ∀ s ∈ segsOf g, s.kind = .pending → s.start = s.stop) :
+    ∀ s ∈ segsOf out.2.2, s.kind = .pending → s.start = s.stop := by
+  revert hin hst hg
+  refine readTokenG_induct modes inp
+    (fun start l g out => InRange modes l.sm → (l.sm.state = 0 → start.getD l.offset = l.offset) →
+      (∀ s ∈ segsOf g, s.kind = .pending → s.start = s.stop) →
+      ∀ s ∈ segsOf out.2.2, s.kind = .pending → s.start = s.stop)
+    ?_ ?_ ?_ ?_ ?_ ?_ ?_ n start l g out h
+  · intro start l g sm' out hpr ih hin _ hg
+    have hok := pushRune_stepOK hwf hin (l.char inp)
+    rw [hpr] at hok
+    refine ih ?_ ?_ hg
+    · rw [consume_sm]; exact hok.inRange (by simp)
+    · rw [consume_sm]; intro h0; exact absurd h0 (hok.consume rfl).1
+  · intro start l g sm' _ _ _ hg s hs hk
+    simp only [segsOf_append, segsOf_cons_fire, segsOf_cons_seg, segsOf_cons_ret, segsOf_nil,
+      List.append_assoc, List.nil_append, List.mem_append, List.mem_singleton] at hs
+    rcases hs with hs | hs
+    · exact hg s hs hk
+    · subst hs; cases hk
+  · intro start l g sm' out hpr ih hin _ hg
+    have hok := pushRune_stepOK hwf hin (l.char inp)
+    rw [hpr] at hok
+    refine ih (hok.inRange (by simp)) (fun _ => rfl) ?_
+    intro s hs hk
+    simp only [segsOf_append, segsOf_cons_fire, segsOf_cons_seg, segsOf_nil,
+      List.append_assoc, List.nil_append, List.mem_append, List.mem_singleton] at hs
+    rcases hs with hs | hs
+    · exact hg s hs hk
+    · subst hs; cases hk
+  · intro start l g sm' out hpr _ hin _ _
+    have := pushRune_no_tryAgain hwf hna hin (l.char inp)
+    rw [hpr] at this
+    exact absurd rfl this
+  · intro start l g sm' hpr hin hst hg s hs hk
+    have hok := pushRune_stepOK hwf hin (l.char inp)
+    rw [hpr] at hok
+    simp only [segsOf_append, segsOf_cons_fire, segsOf_cons_seg, segsOf_cons_ret, segsOf_nil,
+      List.append_assoc, List.nil_append, List.mem_append, List.mem_singleton] at hs
+    rcases hs with hs | hs
+    · exact hg s hs hk
+    · subst hs; exact hst (hok.eof rfl).1
+  · intro start l g sm' _ _ _ hg s hs hk
+    simp only [segsOf_append, segsOf_cons_fire, segsOf_nil, List.append_nil] at hs
+    exact hg s hs hk
+  · intro start l g sm' _ _ _ hg s hs hk
+    simp only [segsOf_append, segsOf_cons_fire, segsOf_cons_seg, segsOf_cons_ret, segsOf_nil,
+      List.append_assoc, List.nil_append, List.mem_append, List.mem_singleton] at hs
+    rcases hs with hs | hs
+    · exact hg s hs hk
+    · subst hs; cases hk
+
+/-- On a well-formed table a `ReadToken` call from an in-range state machine does not panic and
+leaves the state machine in range. -/
+theorem readTokenG_inRange {modes : Array Mode} (hwf : WFModes modes) (inp : Input) (n : Nat)
+    (start : Option Nat) (l : Lx) (g : List Ev) (out : Option Tok × Lx × List Ev)
+    (h : readTokenG modes inp n start l g = some out) (hin : InRange modes l.sm) :
+    out.1 ≠ none ∧ InRange modes out.2.1.sm := by
+  revert hin
+  refine readTokenG_induct modes inp
+    (fun _ l _ out => InRange modes l.sm → out.1 ≠ none ∧ InRange modes out.2.1.sm)
+    ?_ ?_ ?_ ?_ ?_ ?_ ?_ n start l g out h
+  · intro start l g sm' out hpr ih hin
+    have hok := pushRune_stepOK hwf hin (l.char inp)
+    rw [hpr] at hok
+    exact ih (by rw [consume_sm]; exact hok.inRange (by simp))
+  · intro start l g sm' hpr hin
+    have hok := pushRune_stepOK hwf hin (l.char inp)
+    rw [hpr] at hok
+    exact ⟨by simp, hok.inRange (by simp)⟩
+  · intro start l g sm' out hpr ih hin
+    have hok := pushRune_stepOK hwf hin (l.char inp)
+    rw [hpr] at hok
+    exact ih (hok.inRange (by simp))
+  · intro start l g sm' out hpr ih hin
+    have hok := pushRune_stepOK hwf hin (l.char inp)
+    rw [hpr] at hok
+    exact ih (hok.inRange (by simp))
+  · intro start l g sm' hpr hin
+    have hok := pushRune_stepOK hwf hin (l.char inp)
+    rw [hpr] at hok
+    exact ⟨by simp, hok.inRange (by simp)⟩
+  · intro start l g sm' hpr hin
+    have hok := pushRune_stepOK hwf hin (l.char inp)
+    rw [hpr] at hok
+    exact absurd rfl hok.noOob
+  · intro start l g sm' hpr hin
+    have hok := pushRune_stepOK hwf hin (l.char inp)
+    rw [hpr] at hok
+    refine ⟨by simp, ?_⟩
+    rw [afterError_sm]; exact inRange_reset hwf hok.modesOK
+
+theorem lexAllG_pending {modes : Array Mode} (hwf : WFModes modes) (hna : NoAccum modes)
+    (inp : Input) (fuel : Nat) :
+    ∀ n l acc g, InRange modes l.sm →
+      (∀ s ∈ segsOf g, s.kind = .pending → s.start = s.stop) →
+      ∀ s ∈ segsOf (lexAllG modes inp fuel n l acc g).2.2, s.kind = .pending → s.start = s.stop := by
+  intro n
+  induction n with
+  | zero => intro l acc g _ hg; exact hg
+  | succ n ih =>
+    intro l acc g hin hg
+    unfold lexAllG
+    cases hr : readTokenG modes inp fuel none l g with
+    | none => exact hg
+    | some x =>
+      have hp := readTokenG_pending hwf hna inp fuel none l g x hr hin (fun _ => rfl) hg
+      obtain ⟨a1, a2⟩ := readTokenG_inRange hwf inp fuel none l g x hr hin
+      obtain ⟨ot, l', g'⟩ := x
+      cases ot with
+      | none => exact absurd rfl a1
+      | some t =>
+        cases t with
+        | eof p => exact hp
+        | tok ty a b => exact ih _ _ _ a2 hp
+        | err a c => exact ih _ _ _ a2 hp
+
+/-- For an accepted fragment action list the terminal effect is the written `@emit`/`@discard`
+(there is at most one), wherever it stands. -/
+theorem writtenTerminal_of_mem {ws : List WAction} {ps : List Pair}
+    (h : fragRulePairs ws = some ps) {w : WAction} (hw : w ∈ ws) (ht : w.isTerminal = true)
+    (dflt : Pair) : writtenTerminal dflt ws = w.pair := by
+  rw [fragRulePairs_def] at h
+  split at h
+  · cases h
+  · rename_i hc
+    have hlen := filter_terminal_length ws
+    have hle : (ws.filter WAction.isTerminal).length ≤ 1 := by omega
+    have hmem : w ∈ ws.filter WAction.isTerminal := List.mem_filter.2 ⟨hw, ht⟩
+    unfold writtenTerminal
+    rw [← List.head?_filter]
+    match hf : ws.filter WAction.isTerminal with
+    | [] => rw [hf] at hmem; simp at hmem
+    | [w'] =>
+      rw [hf] at hmem
+      simp only [List.mem_singleton] at hmem
+      subst hmem; rfl
+    | _ :: _ :: _ => rw [hf] at hle; simp at hle
+
+theorem writtenTerminal_none {ws : List WAction} (h : ∀ w ∈ ws, w.isTerminal = false)
+    (dflt : Pair) : writtenTerminal dflt ws = dflt := by
+  unfold writtenTerminal
+  have : ws.find? WAction.isTerminal = none := by
+    rw [List.find?_eq_none]; intro w hw; simp [h w hw]
+  rw [this]
+
+/-! ## Push / pop match like brackets -/
+
+theorem applyModeActs_append (a b : List Pair) (ms : MS) :
+    applyModeActs (a ++ b) ms = (applyModeActs a ms).bind (applyModeActs b) := by
+  induction a generalizing ms with
+  | nil => rfl
+  | cons x rest ih =>
+    obtain ⟨ty, p⟩ := x
+    obtain ⟨mode, stack⟩ := ms
+    simp only [List.cons_append]
+    unfold applyModeActs
+    by_cases c1 : ty = 1
+    · simp only [c1, if_true]; exact ih _
+    · simp only [c1, if_false]
+      by_cases c2 : ty = 2
+      · simp only [c2, if_true]
+        cases stack with
+        | nil => rfl
+        | cons top st => simp only; exact ih _
+      · simp only [c2, if_false]; exact ih _
+
+/-- A pop returns to the mode that was current before the matching push: if the actions `mid`
+executed between them (by any number of rules) leave the saved modes as the push left them, the
+push … pop bracket restores `(mode, stack)` exactly. -/
+theorem applyModeActs_bracket (M : Int) (p : Int) (mid : List Pair) (mo : Nat) (st : List Nat)
+    (M' : Nat) (hmid : applyModeActs mid (M.toNat, mo :: st) = some (M', mo :: st)) :
+    applyModeActs ((1, M) :: mid ++ [(2, p)]) (mo, st) = some (mo, st) := by
+  have : (1, M) :: mid ++ [(2, p)] = [(1, M)] ++ (mid ++ [(2, p)]) := rfl
+  rw [this, applyModeActs_append]
+  have h1 : applyModeActs [(1, M)] (mo, st) = some (M.toNat, mo :: st) := by
+    simp [applyModeActs]
+  rw [h1, Option.bind_some, applyModeActs_append, hmid, Option.bind_some]
+  simp [applyModeActs]
+
+/-- On a well-formed table `lexAll` never reports a Go panic, whatever the fuel. -/
+theorem lexAll_no_panic {modes : Array Mode} (hwf : WFModes modes) (inp : Input) (fuel : Nat) :
+    ∀ n l acc, InRange modes l.sm → (lexAll modes inp fuel n l acc).2 ≠ "panic" := by
+  intro n
+  induction n with
+  | zero => intro _ _ _; simp [lexAll]
+  | succ n ih =>
+    intro l acc hin
+    unfold lexAll
+    rw [← readTokenG_erase modes inp fuel none l []]
+    cases hr : readTokenG modes inp fuel none l [] with
+    | none => simp
+    | some x =>
+      obtain ⟨a1, a2⟩ := readTokenG_inRange hwf inp fuel none l [] x hr hin
+      obtain ⟨ot, l', g'⟩ := x
+      cases ot with
+      | none => exact absurd rfl a1
+      | some t =>
+        cases t with
+        | eof p => simp
+        | tok ty a b => exact ih _ _ a2
+        | err a c => exact ih _ _ a2
 
 end Lox.Lex.Rt
